@@ -154,7 +154,9 @@ func (l *Lexer) nextInsideToken() token.Token {
 		}
 		tok = l.newToken(token.ILLEGAL)
 	case '<':
-		if l.peekChar() == '%' {
+		if l.peekChar() == '%' && !l.inComment {
+			// (in the text of a comment tag <% opens nothing: "<%# a<%>" is
+			// a comment that ends in '<')
 			l.inside = true
 			l.readChar()
 			switch l.peekChar() {
